@@ -591,7 +591,7 @@ def verify_function(fc: FunctionContract, specs, rlimit=20_000_000, hooks=None):
                 plain.append((n, k))
         inputs = [make_input(I, n, k) for n, k in plain]
         for v in inputs:
-            if isinstance(v, (SymObj, SymDict, PyList, PyDict, SymSet)):
+            if isinstance(v, (SymObj, SymDict, PyList, PyDict, SymSet, SymNode)):
                 I.track(v)
         spec_inputs = list(inputs)
         if star is not None:
